@@ -530,7 +530,11 @@ Theorem lazy_eq_eager : forall fn mx b n x, commutes fn ->
   0 < b -> 0 < n -> uniform n x -> has_leaf x = true ->
   merge_all (lazy_batches fn mx b x empty_dict) = Some (lazy_eval fn x empty_dict).
 Proof.
-  intros fn mx b n x Hf Hb Hn Hu Hl. unfold lazy_batches, lazy_eval. cbn [forest_of empty_dict].
+  intros fn mx b n x Hf Hb Hn Hu Hl. unfold lazy_batches, lazy_eval. cbv zeta.
+  (* the empty extra has no array: it is repeated once per data batch *)
+  assert (E : forall m, data_split m b empty_dict = repeat empty_dict m) by reflexivity.
+  rewrite E, zipw_repeat by (rewrite map_length; apply le_n).
+  rewrite map_map.
   assert (Hw : commutes (fun p => wrap (fn p))).
   { intros d0 others. rewrite <- (map_map fn wrap), wrap_commutes, Hf. reflexivity. }
   exact (batch_call_eq (fun p => wrap (fn p)) mx b n x Hw Hb Hn Hu Hl).
